@@ -740,7 +740,7 @@ class Identities(Sub):
 # --------------------------------------------------------------------------------------------
 # PV
 
-PV_Q = dict(rates=[0, 0.05, 0.01, 0.5, 1, -0.5, 1e-6, 1e-9, 1e-12, 1e-15, -1e-9], periods=[0, 1, 2, 10, 2.5], pays=[0, 100, -250.5],
+PV_Q = dict(rates=[0, 0.05, 0.01, 0.5, 1, -0.5, 1e-6, 1e-9, 1e-12, 1e-15, -1e-9], periods=[0, 1, 2, 10, 2.5, 360], pays=[0, 100, -250.5],
             futs=[0, 1000, -1000])
 PV_T = dict(rates=[0, 0.05, 0.01, 0.5, 1, -0.5, 0.001, 0.1, 2, -0.25, -0.9, 1e-6, 1e-9, 1e-12, 1e-15, 1e-17, -1e-9, -1e-13],
             periods=[0, 1, 2, 10, 2.5, 360, -2, 30], pays=[0, 100, -250.5, 1],
